@@ -120,10 +120,22 @@ def email(r) -> bytes:
     return local + b"@" + domain(r)
 
 
+_COMMAND_TOKENS = (b"cmd", b"pwsh", b"powershell")
+
+
+def _word(r, lo, hi) -> bytes:
+    """Random [a-z0-9_] word that is not a command token (cmd, pwsh, powershell start shell results of their own whose end
+    depends on the text behind the indicator; at thorough-tier volumes such a coincidence is no longer negligible)."""
+    while True:
+        w = bytes(r.choice(LOWER + DIGITS + b"_") for _ in range(r.randint(lo, hi)))
+        if w not in _COMMAND_TOKENS:
+            return w
+
+
 def posix_path(r) -> bytes:
     pre = r.choice([b"/", b"./", b"../"])
-    segs = [bytes(r.choice(LOWER + DIGITS + b"_") for _ in range(r.randint(3, 9))) for _ in range(r.randint(1, 4))]
-    last = bytes(r.choice(LOWER + DIGITS + b"_") for _ in range(r.randint(3, 9)))
+    segs = [_word(r, 3, 9) for _ in range(r.randint(1, 4))]
+    last = _word(r, 3, 9)
     if r.random() < 0.5:
         last += b"." + r.choice([b"txt", b"cfg", b"log", b"py_", b"dat"])
     return pre + b"/".join(segs) + b"/" + last
@@ -182,7 +194,7 @@ def windows_path(r) -> tuple[bytes, str]:
 
 
 def exe_name(r) -> bytes:
-    return bytes(r.choice(LOWER + DIGITS + b"_") for _ in range(r.randint(1, 10))) + r.choice([b".exe", b".dll", b".EXE", b".Dll", b".Exe", b".eXe", b".dLL", b".DLL"])
+    return _word(r, 1, 10) + r.choice([b".exe", b".dll", b".EXE", b".Dll", b".Exe", b".eXe", b".dLL", b".DLL"])
 
 
 def createobject(r) -> bytes:
